@@ -306,7 +306,15 @@ def rule_tables():
     except ruletables.Missing as ex:
         fail("branch-rule tables: %s" % ex)
 
+import enctables
+def enc_tables():
+    try:
+        return enctables.lean_lines(read("encode.rs"))
+    except enctables.Missing as ex:
+        fail("encoder leaf table: %s" % ex)
+
 files = {"Generated": "\n".join(core) + "\n",
+         "GeneratedEncode": module("GeneratedEncode", [("encoder leaf table", enc_tables)]),
          "GeneratedRule": module("GeneratedRule", [("branch-rule tables", rule_tables)]),
          "GeneratedChars": module("GeneratedChars", [("character tables", chars_tables)]),
          "GeneratedTermn": module("GeneratedTermn", [("termination table", termn_table)]),
